@@ -110,3 +110,24 @@ package fatigue
 //@   property C09 C17 C01
 //@   nopanic
 //@   ensures [new_object_each_time] typeis(result, *ExpFatigueParams) && fresh(result.(*ExpFatigueParams))
+
+// the registered object holds exactly the collaborators it was built with, each in its own role
+//@ func NewFatigue
+//@   property C17 C09 C07
+//@   nopanic
+//@   ensures [wired_as_given] result != nil && fresh(result) && result.valueGeneratorSource == valueGeneratorSource && result.signGeneratorSource == signGeneratorSource && result.functions == functions
+
+// ---- wire format: the JSON names under which requests are read and responses are written (struct tags; encoding/json
+// itself is outside the verified code).  A renamed or omitempty field changes what a client sees without changing any Go value.
+//@ wire ConstFatigueParams
+//@   property C01 C17 C20
+//@   json Value=value
+//@ wire ExpFatigueParams
+//@   property C01 C17 C20
+//@   json Alpha=alpha Multiplier=multiplier QueryNumber=queryNumber
+//@ wire FatigueResult
+//@   property C01 C07 C09 C17 C20
+//@   json EffectiveFatigueRatio=effectiveFatigueRatio ConsideredAlternatives=consideredAlternatives NotConsideredAlternatives=notConsideredAlternatives
+//@ wire FatigueParams
+//@   property C01 C07 C09 C17 C20
+//@   json Function=function Params=params RandomSeed=randomSeed
